@@ -327,6 +327,12 @@ def config_ops(cfg, c=0, seg=True):
         {'op': 'set_money_cfg', 'c': c, 'rm': cfg.get('mrm', False), 'round': cfg.get('mround', True)},
         {'op': 'set_timezone', 'c': c, 'tz': cfg.get('tz', 'UTC')},
     ]
+    if cfg.get('noise'):
+        # a neutral piece of API history: a custom rule is registered and deleted again (deleting a rule restores the previous
+        # behaviour, C18), so every property must hold on this calculator exactly as on one that never saw the rule
+        for lang in ('en', 'tr'):
+            ops.append({'op': 'add_rule', 'c': c, 'lang': lang, 'patterns': ['xyzzy {NUMBER:q}', '{NUMBER:q} xyzzy'], 'spec': {'name': 'noise', 'kind': 'const', 'value': 1}})
+            ops.append({'op': 'delete_rule', 'c': c, 'lang': lang, 'name': 'noise'})
     if cfg.get('thou_first'):
         # the same configuration reached by calling the two separator setters in the other order
         ops[0], ops[1] = ops[1], ops[0]
